@@ -149,9 +149,13 @@ class C04(Prop):
             info = fi.get_info(rec[0])
             for s0, e0 in self.intervals(case, true_len):
                 try:
-                    out["qs"].append([s0, e0, fi.sequence_bytes(info, s0, e0).getvalue().decode("latin-1")])
+                    out["qs"].append([s0, e0, fi.sequence_bytes(info, s0, e0)])
                 except Exception as e:
                     out["qs"].append([s0, e0, {"err": type(e).__name__}])
+            # the returned buffers are read only now, after all the calls (a caller may hold several)
+            for q in out["qs"]:
+                if not isinstance(q[2], dict):
+                    q[2] = q[2].getvalue().decode("latin-1")
             return out
         fi = ctx.fasta_index(ix["idx"], case["sbuf"])
         return {"index": ix, "stream": F.stream_impl(fi, ix["asm"], 60)}
